@@ -7,10 +7,13 @@
    operations, removals included), ALL start states (any enclosing open blocks) and ALL fault positions / flavours.
    `cfault s'` records that the fault fired at a COMMIT / RELEASE boundary.
 
-   What is NOT proved here (checked on the implementation by the correspondence and the oracle only): restoration of
-   the FILE SYSTEM by the undo log for additive programs (`block_files_atomic`), beyond the witnesses below. *)
+   File-system side (Proofs/TxnFiles.v): for ADDITIVE programs (no purge / unstore / emptyTrash anywhere) and start
+   states in which every artifact belongs to a registered dataset (`no_orphan`, established by every committed additive
+   history), a program that raises has restored the artifacts and the staging area -- for every nesting, fault position
+   and flavour short of a COMMIT / RELEASE fault.  File maps are compared extensionally (`feq`: same content in every
+   slot), because an undone Move ingest re-creates the staged file at the front of the association list. *)
 From Coq Require Import NArith List Bool.
-From V Require Import Model.Txn Model.TxnCheck Proofs.TxnProofs.
+From V Require Import Model.Txn Model.TxnCheck Proofs.TxnProofs Proofs.TxnFiles Proofs.TxnProofsRm.
 Import ListNotations.
 Open Scope N_scope.
 
@@ -51,6 +54,87 @@ Theorem ingest_atomic_registry : forall m d s s' h,
   exec_op shipped (Ingest m d) s = (s', Raised h) -> (cfault s' = false \/ sql s = []) -> cur s' = cur s.
 Proof. exact ingest_registry_atomic_p. Qed.
 Print Assumptions ingest_atomic_registry.
+
+(* --- block_atomic, FILE side, full strength for additive programs: every nesting depth, caught and uncaught inner
+   failures, every fault position and flavour, every start state satisfying the invariant (inside or outside other
+   transactions) *)
+Theorem block_atomic_files : forall ps s s' h,
+  additive_list ps = true -> no_orphan s -> exec shipped (PBlock ps) s = (s', Raised h) -> cfault s' = false ->
+  feq (fs s') (fs s) /\ feq (ext s') (ext s) /\ ptr s' = ptr s /\ no_orphan s'.
+Proof. exact block_files_atomic_p. Qed.
+Print Assumptions block_atomic_files.
+
+(* the same for ANY additive program that raises (an operation, a try around a hard fault, a user failure) *)
+Theorem additive_prog_atomic_files : forall p s s' h,
+  additive p = true -> no_orphan s -> exec shipped p s = (s', Raised h) -> cfault s' = false ->
+  feq (fs s') (fs s) /\ feq (ext s') (ext s) /\ ptr s' = ptr s /\ no_orphan s'.
+Proof. exact prog_files_atomic_p. Qed.
+Print Assumptions additive_prog_atomic_files.
+
+(* --- additive_op_atomic, FILE side: every operation other than the three removals, failing at any boundary *)
+Theorem additive_op_atomic_files : forall o s s' h,
+  additive_op o = true -> no_orphan s -> exec shipped (POp o) s = (s', Raised h) -> cfault s' = false ->
+  feq (fs s') (fs s) /\ feq (ext s') (ext s) /\ ptr s' = ptr s /\ no_orphan s'.
+Proof. exact op_files_atomic_p. Qed.
+Print Assumptions additive_op_atomic_files.
+
+(* its two instances that write artifacts: put and ingest (copy and move) *)
+Theorem put_atomic_files : forall d v s s' h,
+  no_orphan s -> exec shipped (POp (Put d v)) s = (s', Raised h) -> cfault s' = false ->
+  feq (fs s') (fs s) /\ feq (ext s') (ext s) /\ ptr s' = ptr s /\ no_orphan s'.
+Proof. exact put_files_atomic_p. Qed.
+Print Assumptions put_atomic_files.
+
+Theorem ingest_atomic_files : forall mo d s s' h,
+  no_orphan s -> exec shipped (POp (Ingest mo d)) s = (s', Raised h) -> cfault s' = false ->
+  feq (fs s') (fs s) /\ feq (ext s') (ext s) /\ ptr s' = ptr s /\ no_orphan s'.
+Proof. exact ingest_files_atomic_p. Qed.
+Print Assumptions ingest_atomic_files.
+
+(* --- the undo-log invariant behind them: an additive program that ends normally inside a datastore transaction has
+   pushed onto the current log exactly entries whose replay restores the files *)
+Theorem additive_log_restores : forall p s s' l rest,
+  additive p = true -> no_orphan s -> ptr s = l :: rest -> exec shipped p s = (s', Normal) -> cfault s' = false ->
+  no_orphan s' /\ exists l', ptr s' = (l' ++ l) :: rest /\ restores l' s' s.
+Proof. exact prog_log_restores_p. Qed.
+Print Assumptions additive_log_restores.
+
+(* --- the invariant is kept by every additive program whatever its outcome, and holds after every committed additive
+   history from the empty repository *)
+Theorem no_orphan_preserved : forall p s s' r,
+  additive p = true -> no_orphan s -> exec shipped p s = (s', r) -> cfault s' = false -> no_orphan s'.
+Proof. exact prog_no_orphan_p. Qed.
+Print Assumptions no_orphan_preserved.
+
+Theorem no_orphan_reachable : forall e pre, additive_list pre = true -> no_orphan (run_pre shipped pre (init e)).
+Proof. exact no_orphan_reachable_p. Qed.
+Print Assumptions no_orphan_reachable.
+
+(* --- exactly the runs of the correspondence: committed additive pre-history, then an additive program with the fault
+   armed at ANY boundary j, ordinary or BaseException; if it raises, the observed file vectors are those of before and
+   no transaction is left open *)
+Theorem reachable_additive_atomic_observed : forall e pre p j h s' h',
+  additive_list pre = true -> additive p = true ->
+  exec shipped p (armed (run_pre shipped pre (init e)) j h) = (s', Raised h') -> cfault s' = false ->
+  fvec (fs s') = fvec (fs (run_pre shipped pre (init e))) /\ fvec (ext s') = fvec (ext (run_pre shipped pre (init e))) /\
+  ptr s' = [] /\ sql s' = [].
+Proof. exact reachable_atomic_p. Qed.
+Print Assumptions reachable_additive_atomic_observed.
+
+(* --- the guard is necessary at EVERY depth: a fault at the RELEASE SAVEPOINT of an inner block makes the block raise
+   with its rows and its artifact in place (replays on the implementation: design.d/C07.md, finding 5) *)
+Theorem block_atomic_refuted_release_fault :
+  exists j, let '(s', r) := exec shipped (PBlock [POp (Put 0 1)]) (with_fuse j s_in) in
+            r = Raised false /\ ds (cur s') = [0] /\ ds (cur s_in) = [] /\ fget 0 (fs s') = Some 1 /\ fs s_in = [] /\
+            cfault s' = true.
+Proof. exact release_fault_inner_p. Qed.
+Print Assumptions block_atomic_refuted_release_fault.
+
+Theorem inner_escape_refuted_release_fault :
+  exists j, let '(s', r) := exec shipped prog_rel (with_fuse j (init e0)) in
+            r = Normal /\ fuse s' = None /\ cfault s' = true /\ ds (cur s') = [0] /\ tags (cur s') = [0] /\ fget 0 (fs s') = Some 1.
+Proof. exact release_fault_program_p. Qed.
+Print Assumptions inner_escape_refuted_release_fault.
 
 (* --- every action of the model keeps the frame discipline (the lemma the others rest on), for every operation *)
 Theorem op_frames : forall o s s' r, exec_op shipped o s = (s', r) ->
@@ -121,6 +205,23 @@ Theorem leftovers_refuted_delete_error_swallowed :
 Proof. exact delete_error_swallowed_p. Qed.
 Print Assumptions leftovers_refuted_delete_error_swallowed.
 
+(* --- removal_all_or_nothing, REGISTRY side, full strength: pruneDatasets(purge) started in ANY state (top level or
+   inside open transactions), with a fault at ANY boundary, of either flavour, whatever its outcome: either the three
+   registry tables it edits are exactly what they were, or the target is gone from all three -- and in both cases
+   every other dataset's rows are untouched ("never harms a dataset it did not target") *)
+Theorem removal_registry_all_or_nothing : forall d s s' r, exec_op shipped (Purge d) s = (s', r) ->
+  (ds (cur s') = ds (cur s) /\ tags (cur s') = tags (cur s) /\ certs (cur s') = certs (cur s)) \/
+  (mem d (ds (cur s')) = false /\ mem d (tags (cur s')) = false /\ mem d (certs (cur s')) = false /\
+   forall x, x <> d -> mem x (ds (cur s')) = mem x (ds (cur s)) /\ mem x (tags (cur s')) = mem x (tags (cur s)) /\
+                      mem x (certs (cur s')) = mem x (certs (cur s))).
+Proof. exact purge_registry_all_or_nothing_p. Qed.
+Print Assumptions removal_registry_all_or_nothing.
+
+Theorem removal_never_harms_other_datasets_registry : forall d s s' r x, exec_op shipped (Purge d) s = (s', r) -> x <> d ->
+  mem x (ds (cur s')) = mem x (ds (cur s)) /\ mem x (tags (cur s')) = mem x (tags (cur s)) /\ mem x (certs (cur s')) = mem x (certs (cur s)).
+Proof. exact purge_bystanders_p. Qed.
+Print Assumptions removal_never_harms_other_datasets_registry.
+
 (* removal_all_or_nothing + leftovers_collected_by_empty_trash, PARTIAL: for the purge of the one stored dataset, at
    every other fault position (finite domain: the purge reaches fewer than 40 boundaries; bound in the statement) the
    registry removal is all-or-nothing and whatever is left behind is collected by the next emptyTrash *)
@@ -139,3 +240,16 @@ Example nested_inner_caught :
   let '(s1, r) := exec shipped (PBlock [POp (Put 2 5); PTry (PBlock [POp (Put 3 6); POp (Cert 0); PFail]); POp (Assoc 2)]) s in
   r = Normal /\ ds (cur s1) = [2; 0; 1] /\ tags (cur s1) = [2] /\ certs (cur s1) = [] /\ fget 3 (fs s1) = None /\ fget 2 (fs s1) = Some 5.
 Proof. vm_compute. repeat split. Qed.
+
+(* the file-side hypotheses are satisfiable: s_one is reachable and satisfies the invariant; the block of
+   block_raises_after_work is additive; literal equality of the staging list is NOT what holds *)
+Example s_one_no_orphan : no_orphan s_one.
+Proof. exact no_orphan_s_one. Qed.
+
+Example additive_example : additive (PBlock [POp (Put 0 1); POp (Ingest Move 2); POp (Assoc 0); PTry (PBlock [POp (Put 3 4); PFail]); PFail]) = true.
+Proof. reflexivity. Qed.
+
+Example staging_list_order_changes :
+  let '(s', r) := exec shipped (PBlock [POp (Ingest Move 2); PFail]) s_one in
+  r = Raised false /\ cfault s' = false /\ ext s' <> ext s_one /\ fvec (ext s') = fvec (ext s_one).
+Proof. exact ext_literal_differs_p. Qed.
